@@ -70,8 +70,10 @@ func runC04(c *Ctx, tier string) {
 	c.Rule("C04-W1", "the type context owns the bytes it caches (= C05-W1)")
 	c.Rule("C04-B1", "pooled frame buffers released exactly once; peeker bytes copied (= C01-O5, C01-O6)")
 	writersNoRetain(c, "C04-W2")
+	c.Rule("C04-F1", "the buffer filter is only an over-approximation: CompileBufferFilter's and/or composition (with absent sub-filters), the keyword-search combination and BufferFilter.Eval's operator table are checked exhaustively over the truth table of sound sub-filters")
 	runC04K1(c)
 	runC04P1(c)
+	runC04F1(c)
 	c.borrow(func(t *Ctx) { runC05Rest(t) }, map[string]string{"C05-W1": "C04-W1"})
 	c.Rule("C04-W3", "an operator that releases a pulled batch keeps none of its values without a copy")
 	batchValuesRetention(c, "C04-W3", opPkgs(c.P)...)
